@@ -124,7 +124,14 @@ def gen_case(prop: str, ctx: Ctx, rng: random.Random) -> dict:
         return {'expr': e, 'chain': [ref, 25], 'fracs': [rng.random() for _ in range(16)] + [0.0, 1.0]}
     if prop == 'C16':
         unsat = ctx.unsat_filter()
-        kind = rng.choice(['time', 'time', 'group', 'op', 'interval', 'sparse', 'tiny'])
+        kind = rng.choice(['time', 'time', 'group', 'op', 'interval', 'sparse', 'tiny', 'dstskip', 'dstskip'])
+        if kind == 'dstskip' and ctx.affected:
+            # an unfiltered time of day inside a skipped / repeated hour, every policy, asked around the change: a handful
+            # of days are looked at, never the whole horizon
+            t, lo, hi, _fw = rng.choice(ctx.affected)
+            e = ['time', (lo + rng.randrange(0, max(1, (hi - lo) // MIN)) * MIN) % DAY, rng.choice(['skip', 'earlier', 'later', 'after']),
+                 rng.choice(['skip', 'earlier', 'later', 'twice']), None]
+            return {'expr': e, 'queries': [t - DAY - HOUR, t - 3 * HOUR, t - 1, t, t + 2 * HOUR, t + DAY], 'fracs': [0.5], 'budget': 6}
         if kind == 'tiny':
             # a legal interval far below a microsecond, starting right at the reference: a handful of steps
             # (oracle only: float seconds of a few hundred nanoseconds are not compared with the model)
@@ -208,6 +215,11 @@ def oracle(prop: str, zone: str, ref: Ref, c: dict) -> tuple[list, bool]:
         return bad, bool(oks)
     if prop == 'C16':
         for dt, r in res:
+            if r == ['raise', 'EInfiniteLoop'] and e[0] == 'time' and e[4] is None:
+                want = ref.next_ref(e, dt, {})
+                if isinstance(want, int):
+                    bad.append(f'get_next({dt}) searched its whole horizon and gave up with InfiniteLoopDetectedError although '
+                               f'the occurrence {want} exists')
             if r[0] == 'raise' and r[1] not in ('EInfiniteLoop', 'ELocationNotSet'):
                 bad.append(f'get_next({dt}) ended with {r[1]}: neither an instant nor InfiniteLoopDetectedError '
                            '(nor a missing location / holiday setup)')
@@ -219,6 +231,16 @@ def oracle(prop: str, zone: str, ref: Ref, c: dict) -> tuple[list, bool]:
         return bad, True
     if prop in ('C05', 'C06') and is_base(e):
         anchors = interval_anchors(e, res)
+        if e[0] == 'time':
+            # the walk of a time trigger covers 99 999 local days: giving up while an admissible occurrence lies within
+            # the reference's own horizon (800 days) is a missed run
+            for dt, r in res:
+                if r == ['raise', 'EInfiniteLoop']:
+                    want = ref.next_ref(e, dt, anchors)
+                    if isinstance(want, int):
+                        bad.append(f'get_next({dt}) gave up with InfiniteLoopDetectedError although the admissible occurrence '
+                                   f'{want} exists')
+                        decided = True
         if e[0] == 'group' and e[2] is None:
             # the union of the members' admissible occurrences: a member that never fires must not silence the others
             for dt, r in res:
